@@ -402,10 +402,31 @@ class UnitBuild:
                 bu = "\n".join(l for l in spec.prefix.splitlines() if l.strip().startswith("broadcast use"))
                 body = body[:pos] + "\n" + _indent(bu, 12) + body[pos:]
         for loop, rx, text in spec.injects:
+            at_end = rx.startswith("END:")
+            if at_end:
+                rx = rx[4:]
             m = re.search(rx, body)
             if not m:
                 raise AnchorError(f"{spec.name}: inject anchor /{rx}/ not found")
-            body = body[:m.end()] + "\n" + text + body[m.end():]
+            pos = m.end()
+            if at_end:
+                # END:<regex> — the hint goes to the END of the innermost block that contains the match (robust against
+                # reordering of the statements of that block)
+                depth = 0
+                pos = None
+                for t in code_toks(lex(body)):
+                    if t.start < m.end() or t.kind != "punct":
+                        continue
+                    if t.text == "{":
+                        depth += 1
+                    elif t.text == "}":
+                        if depth == 0:
+                            pos = t.start
+                            break
+                        depth -= 1
+                if pos is None:
+                    raise AnchorError(f"{spec.name}: inject anchor /{rx}/: no enclosing block end")
+            body = body[:pos] + "\n" + text + body[pos:]
         if spec.prefix.strip():
             assert body.lstrip().startswith("{")
             i = body.index("{")
